@@ -234,3 +234,42 @@ def converter_names(expr: ast.AST) -> Set[str]:
         if isinstance(n, ast.Subscript) and isinstance(n.value, ast.Name) and n.value.id[:1].isupper():
             out.add(n.value.id + '[]')
     return out
+
+
+TYPE_CONVERTER = {'Player': {'Player[]', 'Player.convert_formal_name'}, 'Pair': {'Pair[]'}, 'Suit': {'Suit[]'},
+                  'Vul': {'Vul.str_to_vul'}, 'Bid': {'Bid.str_to_bid'}, 'Card': {'Card.str_to_card'},
+                  'Contract': {'Contract.str_to_contract'}, 'Hands': {'hands_parser', 'Hands.convert_pbn'},
+                  'TrickHistory': {'TrickHistory'}, 'BoardSetting': {'convert_board_setting'}}
+
+
+def leaves(t):
+    if t[0] == 'leaf':
+        return {t[1]}
+    out = set()
+    for x in t[1:]:
+        if isinstance(x, tuple):
+            out |= leaves(x)
+    return out
+
+
+def check_converters(chk, rule, repo, mod, qual, fields, annots, inline=None):
+    """For every library value type a reader field declares, the inverse converter of the writer's
+    notation (str() <-> X[...] / X.str_to_x, established as inverses by C15) must be the one applied."""
+    for fld, expr in fields.items():
+        ann = annots.get(fld)
+        if ann is None or (isinstance(expr, ast.Constant) and expr.value is None):
+            continue
+        used = converter_names(expr)
+        if inline is not None:
+            for n in ast.walk(expr):
+                if isinstance(n, ast.Attribute) and isinstance(n.value, ast.Call) and ast.unparse(n.value.func) == 'convert_board_setting' \
+                        and n.attr in inline.fields:
+                    used |= converter_names(inline.fields[n.attr])
+        for leaf in sorted(leaves(ann)):
+            if leaf not in TYPE_CONVERTER:
+                continue
+            ok = bool(used & TYPE_CONVERTER[leaf])
+            chk.require(ok, rule, repo.where(mod, expr), qual, f'{fld}: converter for {leaf} in `{ast.unparse(expr)[:60]}`',
+                        f'field {fld}: {leaf} values are rebuilt by {sorted(TYPE_CONVERTER[leaf])}',
+                        f'field `{fld}` ({leaf}) is rebuilt by {sorted(used) or "no converter"}; the writer\'s notation is inverted by '
+                        f'{sorted(TYPE_CONVERTER[leaf])} (e.g. Vul["None"] / Vul["All"] do not exist)')
